@@ -586,6 +586,9 @@ impl Prop for CapProp {
                 0..=2 => 1,
                 3..=5 => 2,
                 6..=8 => 3,
+                9..=20 => 4,
+                21..=23 => 5,
+                24..=31 => 6,
                 _ => 0,
             }
         } else {
@@ -596,7 +599,10 @@ impl Prop for CapProp {
             let (o, n) = match giant {
                 1 => crate::gen::gen_many_distinct(rng),
                 2 => crate::gen::gen_many_cells(rng),
-                _ => crate::gen::gen_big_slide(rng),
+                3 => crate::gen::gen_big_slide(rng),
+                4 => crate::gen::gen_long_run(rng),
+                5 => crate::gen::gen_big_gap(rng),
+                _ => crate::gen::gen_lopsided(rng),
             };
             seq.old_range = (0, o.len());
             seq.new_range = (0, n.len());
@@ -607,10 +613,17 @@ impl Prop for CapProp {
             seq.alg = match giant {
                 1 => *rng.pick(&[crate::gen::Alg::Myers, crate::gen::Alg::Patience]),
                 2 => crate::gen::Alg::Lcs,
+                4 => *rng.pick(&[crate::gen::Alg::Myers, crate::gen::Alg::Patience, crate::gen::Alg::Myers]),
+                5 => crate::gen::Alg::Patience,
+                6 => *rng.pick(&[crate::gen::Alg::Myers, crate::gen::Alg::Patience]),
                 _ => *rng.pick(&crate::gen::ALGS),
             };
             // the 16-bit id question only exists behind the text builder
-            entry = if giant == 1 { CapEntry::TextLines } else { CapEntry::Slices };
+            entry = match giant {
+                1 => CapEntry::TextLines,
+                4 if rng.chance(1, 2) => CapEntry::TextLines,
+                _ => CapEntry::Slices,
+            };
         }
         if entry == CapEntry::Script && seq.n() + seq.m() > 80 {
             // scripts exercise Compact, small inputs with repeats do that best
